@@ -34,6 +34,12 @@ type Fix struct {
 	Ext   [][common.ExtendedSeedSize]uint8
 	Desc  [][]byte
 	Priv  []*xmss.XMSS // pristine private keys, one per task slot; cloned per run
+	// keep: addresses reachable from more than one pristine private key, i.e.
+	// memory the library shares between key objects; clones keep sharing it
+	keep map[uintptr]bool
+	// DilRun: shared Dilithium keys created anew before every run and not used
+	// before the tasks start, so that their first use may overlap
+	DilRun []*dilithium.Dilithium
 }
 type dsig struct {
 	msg, key int
@@ -125,6 +131,18 @@ func buildFixtures(seed uint64) *Fix {
 		r.Bytes(s[:])
 		f.Priv = append(f.Priv, xmss.NewXMSSFromSeed(s, 4, xmss.HashFunction(i%3), common.SHA256_2X))
 	}
+	cnt := map[uintptr]int{}
+	for _, k := range f.Priv {
+		for _, p := range k.VerifReachable() {
+			cnt[p]++
+		}
+	}
+	f.keep = map[uintptr]bool{}
+	for p, c := range cnt {
+		if c > 1 {
+			f.keep[p] = true
+		}
+	}
 	return f
 }
 
@@ -155,7 +173,7 @@ func (f *Fix) sharedDigest() string {
 	for _, m := range f.Mnem {
 		h.Write([]byte(m))
 	}
-	for _, d := range f.Dil {
+	for _, d := range append(append([]*dilithium.Dilithium(nil), f.Dil...), f.DilRun...) {
 		pk, sk, sd := d.GetPK(), d.GetSK(), d.GetSeed()
 		h.Write(pk[:])
 		h.Write(sk[:])
@@ -219,7 +237,10 @@ func (f *Fix) exec(c Call, priv *xmss.XMSS) (res string) {
 		return digestOf(bb(xmss.Verify(f.Msgs[s.msg], s.sig, f.XPK[s.pk])))
 	case "xverifyw":
 		s := f.XSig[a%len(f.XSig)]
-		return digestOf(bb(xmss.VerifyWithCustomWOTSParamW(f.Msgs[s.msg], s.sig, f.XPK[s.pk], 16)))
+		// mostly the standard parameter; sometimes another Winternitz parameter
+		// (the signature then has the wrong size: the refusal is the result)
+		w := []uint32{16, 16, 16, 4, 256}[b%5]
+		return digestOf(bb(xmss.VerifyWithCustomWOTSParamW(f.Msgs[s.msg], s.sig, f.XPK[s.pk], w)))
 	case "xaddr":
 		ad := xmss.GetXMSSAddressFromPK(f.XPK[a%len(f.XPK)])
 		return digestOf(ad[:])
@@ -251,13 +272,13 @@ func (f *Fix) exec(c Call, priv *xmss.XMSS) (res string) {
 	case "dvalid":
 		return digestOf(bb(dilithium.IsValidDilithiumAddress(f.Addr[a%len(f.Addr)])))
 	case "dsign":
-		s, err := f.Dil[a%len(f.Dil)].Sign(f.Msgs[b%len(f.Msgs)])
+		s, err := f.dil(a).Sign(f.Msgs[b%len(f.Msgs)])
 		return digestOf(s[:], []byte(fmt.Sprint(err)))
 	case "dseal":
-		s, err := f.Dil[a%len(f.Dil)].Seal(f.Msgs[b%len(f.Msgs)])
+		s, err := f.dil(a).Seal(f.Msgs[b%len(f.Msgs)])
 		return digestOf(s, []byte(fmt.Sprint(err)))
 	case "dget":
-		d := f.Dil[a%len(f.Dil)]
+		d := f.dil(a)
 		pk, sk, sd, ad := d.GetPK(), d.GetSK(), d.GetSeed(), d.GetAddress()
 		return digestOf(pk[:], sk[:], sd[:], ad[:], []byte(d.GetMnemonic()), []byte(d.GetHexSeed()))
 	case "dextract":
@@ -306,6 +327,17 @@ func (f *Fix) exec(c Call, priv *xmss.XMSS) (res string) {
 		return digestOf(pk[:], s, []byte(fmt.Sprint(err)))
 	}
 	panic("consim: unknown call kind " + c.K)
+}
+
+// dil picks a shared Dilithium key: a warm one (already used while building
+// the fixtures) or one created fresh for this run.
+func (f *Fix) dil(a int) *dilithium.Dilithium {
+	all := len(f.Dil) + len(f.DilRun)
+	i := a % all
+	if i < len(f.Dil) {
+		return f.Dil[i]
+	}
+	return f.DilRun[i-len(f.Dil)]
 }
 
 func dilDigest(d *dilithium.Dilithium, err error) string {
